@@ -454,7 +454,7 @@ def accept(tree, env, allow_inexact=False):
 
 def gen_cases(rng, tier, boost=1):
     cases = []
-    dist = {"adjacent_ops": 0, "random_trees": 0, "equality": 0, "kind_pairs": 0, "inexact": 0, "single": 0, "novalue": 0}
+    dist = {"adjacent_ops": 0, "random_trees": 0, "equality": 0, "kind_pairs": 0, "trailing_prefix": 0, "inexact": 0, "single": 0, "novalue": 0}
     nov = [0]
 
     def emit(tree, env, cls, extra=0.25, allow_inexact=False):
@@ -604,6 +604,37 @@ def gen_cases(rng, tier, boost=1):
         if emit(t, env, "kind_pairs", extra=rng.choice([0, 0, 0.3])):
             made += 1
 
+    # 7. D80: texts that END in a one-character operator prefix, the if forms quoted with operator
+    #    characters (the unit after the text is then the second half of a two-character operator);
+    #    and well-formed expressions under the same quotes
+    tails = [">", "<", "!", "|", "&", "=", "+", "-", "*", "/", "%", "^"]
+    quotes = ['"', "'", "=", "|", "&", "<", "!"]
+    for _ in range((300 if tier == "quick" else 6000) * boost):
+        env = rand_env(rng)
+        tries = 0
+        while True:
+            tries += 1
+            t = rand_tree(rng, rng.choice([0, 1, 2]))
+            if accept(t, env) is not None or tries > 50:
+                break
+        if tries > 50:
+            continue
+        pt = parenthesise(rng, t, 0)
+        if accept(pt, env) is None:
+            continue
+        body = show(rng, pt)
+        wellformed = rng.random() < 0.3
+        tail = rng.choice(tails)
+        if tail in "+-" and not (body.rstrip()[-1:].isdigit() or body.rstrip()[-1:] in (")", "}")):
+            continue       # a sign after literal text is part of the text, not an operator
+        text = body if wellformed else body + rng.choice(["", "", " "]) + tail + rng.choice(["", "", " "])
+        qs = [q for q in quotes if q not in text]
+        if not qs:
+            continue
+        q = rng.choice(qs)
+        cases.append("Q%d:%s %s %s" % (ord(q), ",".join(str(ord(c)) for c in text), ser_env(env), ser_tree(pt) if wellformed else "x"))
+        dist["trailing_prefix"] += 1
+
     # 5. real arithmetic with inexact intermediates (+ * / only): model must agree bit for bit,
     #    oracle within 2^-40
     n = (400 if tier == "quick" else 20000) * boost
@@ -648,6 +679,8 @@ def corpus_cases():
 
 def case_text(case):
     u = case.split(" ")[0]
+    if u.startswith("Q"):
+        u = u.split(":", 1)[1]
     return "" if u == "-" else "".join(chr(int(x)) for x in u.split(","))
 
 
@@ -767,6 +800,8 @@ def canonical_case(tree, envtok):
 
 def minimise(exe, case, want_oracle_fail):
     tk = case.split(" ")
+    if tk[2] == "x" or tk[0].startswith("Q"):
+        return case          # ill-formed text / special quote: kept as generated
     try:
         tree = fix_dec(parse_tree_tok(tk[2]))
     except Exception:
@@ -848,6 +883,8 @@ def check(tier):
         found_input = True
         rr = vlib.differential(COMP, exe, [small])
         ii, mm = (rr.oracle_fail[0][1], rr.oracle_fail[0][2]) if rr.oracle_fail else (i, m)
+        if ii == "":
+            ii, mm = i, m        # the driver died on the single case (sanitizer abort): keep the sharded run's CRASH tag
         rep.violation({"component": "expr", "case": small, "expression": case_text(small),
                        "format": "<expr units> <env> <tree>; impl/model token = eval|math|inline-if|if-block",
                        "observed_impl": ii, "model": mm,
